@@ -7,7 +7,7 @@ CASES = [
     dict(expect="fire", desc="combine_latest emits before all have values", names="G1-gating", edits=[dict(file=CL,
          old="            if has_value_all:\n                observer.on_next(tuple(values))", new="            if True:\n                observer.on_next(tuple(values))")]),
     dict(expect="fire", desc="with_latest_from decides by truthiness of values", names="G1-gating", edits=[dict(file=WL,
-         old="                    if NO_VALUE not in values:", new="                    if all(values):")]),
+         old="                    if not any(v is NO_VALUE for v in values):", new="                    if all(values):")]),
     dict(expect="fire", desc="zip completes as soon as any source completes", names="zip_", edits=[dict(file=Z,
          old="            is_completed[i] = True\n            if len(queues[i]) == 0:\n                observer.on_completed()", new="            is_completed[i] = True\n            observer.on_completed()")]),
     dict(expect="fire", desc="amb: loser not disposed", names="G1-gating", edits=[dict(file=AMB,
@@ -21,4 +21,10 @@ CASES = [
     dict(expect="silent", desc="with_latest_from: children subscribed in a loop before the primary", edits=[dict(file="reactivex/observable/withlatestfrom.py",
          old="            children_subscription = [\n                subscribechild(i, child) for i, child in enumerate(children)\n            ]\n",
          new="            children_subscription = []\n            for i, child in enumerate(children):\n                children_subscription.append(subscribechild(i, child))\n")]),
+    dict(expect="fire", desc="pre-fix a6fd088: with_latest_from tests the marker with `not in` (element __eq__)", names="G1-gating", edits=[dict(file="reactivex/observable/withlatestfrom.py",
+         old="if not any(v is NO_VALUE for v in values):", new="if NO_VALUE not in values:")]),
+    dict(expect="silent", desc="with_latest_from: all(v is not NO_VALUE ...) form", edits=[dict(file="reactivex/observable/withlatestfrom.py",
+         old="if not any(v is NO_VALUE for v in values):", new="if all(v is not NO_VALUE for v in values):")]),
+    dict(expect="fire", desc="with_latest_from: marker compared by equality inside any()", names="G1-gating", edits=[dict(file="reactivex/observable/withlatestfrom.py",
+         old="if not any(v is NO_VALUE for v in values):", new="if not any(v == NO_VALUE for v in values):")]),
 ]
